@@ -3,6 +3,8 @@ package main
 import (
 	"bufio"
 	"os"
+	"strconv"
+	"strings"
 )
 
 func eachLine(f func(line []byte) error) error {
@@ -17,4 +19,26 @@ func eachLine(f func(line []byte) error) error {
 		}
 	}
 	return sc.Err()
+}
+
+// Crash isolation: before a risky call the harness announces its running number (flushed). If the process dies
+// (a fatal runtime error such as out-of-memory cannot be recovered), the driver re-runs with VERIF_SKIP listing the
+// numbers that killed it; those calls are then not made but reported as "crash".
+var skipSet map[int]bool
+
+func announce(n int) bool {
+	if skipSet == nil {
+		skipSet = map[int]bool{}
+		for _, f := range strings.Split(os.Getenv("VERIF_SKIP"), ",") {
+			if v, err := strconv.Atoi(strings.TrimSpace(f)); err == nil {
+				skipSet[v] = true
+			}
+		}
+	}
+	if skipSet[n] {
+		return false
+	}
+	out.WriteString("{\"begin\":" + strconv.Itoa(n) + "}\n")
+	out.Flush()
+	return true
 }
